@@ -222,7 +222,9 @@ FPlan generate(const std::string &prop, const std::string &tier, uint64_t seed)
     Rng r(sim::mix(seed, sim::fnv1a(prop.data(), prop.size())));
     bool thorough = tier == "thorough";
 
-    static const char *bases[] = { "app.log", "app.log", "app", "a+b.log", "my.app.log", "d/app.log", ".app.log" };
+    static const char *bases[] = { "app.log", "app.log", "app", "a+b.log", "my.app.log", "d/app.log", ".app.log",
+                                   "my app.log", "app(1).log", "app[x].log", "\xd0\xb6\xd1\x83\xd1\x80\xd0\xbd\xd0\xb0\xd0\xbb.log", "APP.LOG",
+                                   "app.log.1", "app..log" };
     p.base = pick(r, bases);
     static const int Ls[] = { 0, 1, 2, 5, 16, 64, 64, 100, 100, 1000, 16383, 16384, 16385, 70000 };
     static const int Ns[] = { -1, 0, 0, 1, 2, 2, 3, 3, 4, 11, 12 };
